@@ -27,7 +27,7 @@ PROFILES = {
     "C01": {**W_STRUCT, "mku": 1, "mkv_u": 1, "u_add": 4, "v_add_uni": 2},
     "C02": dict(W_MEMB),
     # laws are (re)assigned on universes that have members, nested universes and themselves among them
-    "C19": {**W_LAWS, "u_add": 3, "v_add_uni": 2, "u_rm": 1, "mkv_u": 1},
+    "C19": {**W_LAWS, "u_add": 3, "v_add_uni": 2, "u_rm": 1, "mkv_u": 1, "w_file": 3},
     "C03": {**W_STRUCT, **{k: v // 2 + 1 for k, v in W_MEMB.items()}, **{k: v // 3 + 1 for k, v in W_LAWS.items()}},
 }
 LIMITS = {"V": 5, "U": 3, "E": 7, "M": 2, "W": 4}
@@ -362,6 +362,12 @@ class Gen:
         return ["set_applies", w, u]
 
 
+    def g_w_file(self, pool):
+        w = self._pick(self.laws(pool))
+        u = self._pick(self.universes(pool))
+        return None if w is None or u is None else ["w_file", w, u]
+
+
 def _flat(xs):
     for x in xs:
         if isinstance(x, (list, tuple)):
@@ -469,6 +475,9 @@ def alias_class(pool, op) -> str:
             if wo is uo.laws:
                 return f"{cur}:new=current"
             return f"{cur}:" + ("new_bound_elsewhere" if wo.applies_to is not None else "new_free")
+        if k == "w_file":
+            wo, uo = pool.get(op[1]), pool.get(op[2])
+            return "governs" if wo.applies_to is uo else "elsewhere" if wo.applies_to is not None else "free"
         if k == "set_applies":
             wo = pool.get(op[1])
             cur = "w_bound" if wo.applies_to is not None else "w_free"
